@@ -30,7 +30,7 @@ CHECKS = {
          "subsetting options (+ obsrange masking); TLC enumerates every set of up to 2 (quick) / 3 (thorough) options, each with values "
          "selecting everything / a strict subset / range ends equal to a coordinate / nothing, on two inputs with different order and "
          "coverage (+ climatology); dims, error-exit/NaN outcome of empty selections and all request results are compared with Data(...). "
-         "Code->spec: the Data objects the repository's own tests build (its -t/-d/-tod/-l/-lx/-latrange/-lonrange/-obsrange fixtures) are recorded and TLC checks their verified dimensions, error exits and returned arrays against the same definitions (Trace_DataImpl). The options are sets: the replay also spells the list options in another order with every value twice, next to a second option.",
+         "Code->spec: the Data objects the repository's own tests build (its -t/-d/-tod/-l/-lx/-latrange/-lonrange/-obsrange fixtures) are recorded and TLC checks their verified dimensions, error exits and returned arrays against the same definitions (Trace_DataImpl). The options are sets: the replay also spells the list options in another order with every value twice, next to a second option. -d is also given dates in December, on 1 March of a non-leap year and on a leap day (family C11Sel on files that store unix times).",
     technique="TLA+ spec (Dataset.tla SelTime/SelLead/SelLoc) model-checked with TLC; generated option sets replayed into verif.data.Data; executions of the repository's test-suite validated by TLC",
     ref="6/C03"),
  "C04": dict(
@@ -40,7 +40,7 @@ CHECKS = {
          "of 49 metrics x 4 axes x every slice and input; each dataset is materialised once per missing-value encoding of its format "
          "(text: -999, -999.0, nan, non-numeric; NetCDF: NaN, _FillValue, masked, -999, >1e30; Decode/DecodeNc in TextFormat/NcFormat.tla) "
          "and every score recomputed by Metric.compute (a number where the spec says undefined, or any exception, is a violation); "
-         "obs / fcst / mae also under the sum and max aggregators, -T windows with a missing value (family C15T), ensemble members and probabilistic fields with missing values. A combination a ragged text file has no row for is missing for every field derived from its ensemble members.",
+         "obs / fcst / mae also under the sum and max aggregators, -T windows with a missing value (family C15T), ensemble members and probabilistic fields with missing values. A combination a ragged text file has no row for is missing for every field derived from its ensemble members. A slice in which every field is missing has no score under any aggregator, for every metric (Aggregators!EmptyIsUndefined).",
     technique="TLA+ specs (Scoring.tla = Dataset.tla + Metrics.tla) evaluated by TLC; expected score matrices replayed through files in every missing-value encoding into verif.data + verif.metric",
     ref="6/C04"),
  "C11": dict(
@@ -48,7 +48,7 @@ CHECKS = {
          "lemmas on every day 1900-2100 (thorough) and emits each day's facts, replayed into verif.util conversions and all time-like "
          "axes; Dataset.tla SliceKey/SliceOf with the Partition invariant gives the slices of datasets whose initialisation times "
          "straddle year/month/week/leap-day boundaries (runs off the hour and lead times before the initialisation time included), replayed through Data.get_axis_values and get_scores for 15 axes, "
-         "also after another dataset has been opened in the same process and under other time zones. Family C11Two: two files whose lists of runs differ, so that a common run sits at different positions in them.",
+         "also after another dataset has been opened in the same process and under other time zones. Family C11Two: two files whose lists of runs differ, so that a common run sits at different positions in them. The families are also written with date + hour columns.",
     technique="TLA+ specs (Calendar.tla, Dataset.tla) model-checked with TLC; per-day facts and per-slice cases replayed into verif.util/axis/data",
     ref="6/C11"),
  "C12": dict(
@@ -77,7 +77,7 @@ CHECKS = {
          "non-finite, hence dropped, cases); TLC enumerates climatologies with their own coverage, order, missing cells and zeros, "
          "checks the shift-equivalence theorem (-c X versus X as extra input) and emits expected results replayed into Data(clim=...); "
          "through the driver: legend / table columns never name the climatology, and the operation applied is the one given with the file that is used; "
-         "-obsrange together with a climatology selects by observed value, not by anomaly (family C14Range). A climatology file called like the first scored input does not disturb the legend, the csv header or the numbers under them.",
+         "-obsrange together with a climatology selects by observed value, not by anomaly (family C14Range). A climatology file called like the first scored input does not disturb the legend, the csv header or the numbers under them. NetCDF climatologies that list the common coordinates in another order are matched by coordinates too.",
     technique="TLA+ spec (Dataset.tla Adj) model-checked with TLC; generated datasets replayed into verif.data.Data with clim",
     ref="6/C14"),
  "C07": dict(
@@ -102,7 +102,7 @@ CHECKS = {
          "so that the p<t>/q<l>/e<k>/pit/elev classification is decided in the spec; tokens with their missing-value spellings; rows in "
          "any order; metadata lines); TLC checks ColumnOrderInvariant / RowOrderInvariant / parse-of-generated = intended on every "
          "generated file; each file is written literally (several separators, extra comment lines), read with verif.input.Text and all "
-         "attributes are compared by coordinates with Parse(file). Files without a location column are defined in the module (LocationsNoId: sites = distinct position triples, also a hundred-thousandth of a degree apart); only a # x0 / # x1 line gives the variable a discrete mass (NoMassWithoutLine).",
+         "attributes are compared by coordinates with Parse(file). Files without a location column are defined in the module (LocationsNoId: sites = distinct position triples, also a hundred-thousandth of a degree apart); only a # x0 / # x1 line gives the variable a discrete mass (NoMassWithoutLine). Every file is also read through verif.input.get_input on a path that held another file before.",
     technique="TLA+ spec (TextFormat.tla) model-checked with TLC; generated literal files read by verif.input.Text and compared with the spec's Parse",
     ref="6/C09"),
  "C10": dict(
@@ -110,7 +110,7 @@ CHECKS = {
          "DecodeNc for _FillValue / masked / -999 / NaN / >1e30, an encoder and the RoundTrip lemma NcParse(EncodeNc(I)) = I checked by "
          "TLC for every generated Input x encoding x dimension order; both literal files are written by the harness' own writers "
          "(with swapped file-name extensions), read with verif.input.get_input and compared by coordinates with the expected Input; "
-         "scripts/text2nc.py is run on the text file and its output compared variable by variable.",
+         "scripts/text2nc.py is run on the text file and its output compared variable by variable. Stations in the 0..360 longitude convention are part of the universe.",
     technique="TLA+ spec (NcFormat.tla + TextFormat.tla) model-checked with TLC; generated text/NetCDF file pairs read by verif.input and text2nc output compared with the spec's Input",
     ref="6/C10"),
  "C05": dict(
@@ -126,7 +126,7 @@ CHECKS = {
          "(log-based ones as expression trees) with explicit undefined cases; TLC checks counts-sum, Swap, Complement, PerfectTable and "
          "[0,1] bounds on every table with total <= 8 (quick) / 14 (thorough) and on every pair vector of length <= 2-3 over values "
          "below/at/between/at/above the thresholds and missing x 8 bin types; each case is replayed into compute_from_abcd, "
-         "_compute_abcd and compute_from_obs_fcst (undefined must be NaN, never infinite). The scores are also read from the tables the program prints (Report.tla), including tables under -C with a climatology that holds zeros (pairs whose quotient is no number are no pairs of the table).",
+         "_compute_abcd and compute_from_obs_fcst (undefined must be NaN, never infinite). The scores are also read from the tables the program prints (Report.tla), including tables under -C with a climatology that holds zeros (pairs whose quotient is no number are no pairs of the table). Tables are handed over as np.int64 and as plain Python ints / floats.",
     technique="TLA+ spec (Metrics.tla Table/Cat) model-checked with TLC; all small tables and pair vectors replayed into verif.metric.Contingency classes",
     ref="6/C06"),
  "C15": dict(
@@ -167,7 +167,7 @@ CHECKS = {
          "expectation, all earlier arrays vs their snapshots, Input arrays unchanged). Code->spec: hook traces of those executions are "
          "and of random request sequences are validated by TLC against the model (Trace_DataImpl), internal disagreement being MODEL-DRIFT only. "
          "Repeating a command: every command of a small menu is run in several fresh interpreters (different string-hash seeds) on files with and without a location column and must print the same. "
-         "The repository's own test-suite is run with the hooks on: every Data object its tests build from verif/tests/files and every array those objects return is one more trace that TLC validates (verified dimensions, error exits only for empty selections, returned values, cache internals). Probabilities the files do not store (derived from ensemble members, DatasetGen!DerivedProb) are fields of the model like any other: family C18Derived replays every ordered pair of 48 requests on files whose members are missing at different cells.",
+         "The repository's own test-suite is run with the hooks on: every Data object its tests build from verif/tests/files and every array those objects return is one more trace that TLC validates (verified dimensions, error exits only for empty selections, returned values, cache internals). Probabilities the files do not store (derived from ensemble members, DatasetGen!DerivedProb) are fields of the model like any other: family C18Derived replays every ordered pair of 48 requests on files whose members are missing at different cells. Stored quantiles are also replayed on NetCDF files whose missing values are a _FillValue of the file's own.",
     technique="TLA+ refinement DataImpl => Dataset checked by TLC over all request histories (bounded: every sequence; unbounded: every reachable cache state under a canonical view); behaviours replayed into verif.data.Data; hook traces (own drivers and the repository's test-suite) validated by TLC",
     ref="6/C18"),
  "C19": dict(
